@@ -36,7 +36,7 @@ def configs(T, Fc, asc, smear, bound, tier, geom=None):
             if it and tform != 'fn':
                 continue
             for nt in (nts if (ip or it) else (2,)):
-                for nf in (nts if if_ else (2,)):
+                for nf in (((3,) if tier == 'quick' else nts) if if_ else (2,)):      # never the same count as the time grid (2) in the quick tier
                     for ns in ((2, 3) if smear else (2,)):
                         if tier == 'quick' and smear and ns == 3 and (ip or it or if_):
                             continue
